@@ -159,8 +159,34 @@ _orig_cases = cases
 
 
 def cases(seed, tier, shard, nshards):   # noqa: F811 - add features computed from the graph
+    rng = random.Random(f'{seed}:C07:poison:{tier}:{shard}')
     for c in _orig_cases(seed, tier, shard, nshards):
-        yield prepare(c)
+        c = prepare(c)
+        if rng.random() < 0.04 and not c.get('default_recursion_limit'):
+            # history: an earlier writer call in this process FAILED half-way (a ring graph one of whose nodes has no
+            # name; the writer raises after it has opened ring bonds); the round trip that follows must not notice
+            n = rng.randint(3, 7)
+            chords = [sorted(rng.sample(range(n), 2)) for _ in range(rng.choice([0, 1, 2]))]
+            c['failed_write_before'] = dict(n=n, chords=chords, unnamed=rng.randrange(1, n), orders=[rng.choice([1, 1, 2, 3]) for _ in range(n + len(chords))])
+            c['features'] = sorted(set(c['features']) | {'after_a_failed_write'})
+        yield c
+
+
+def failed_write(spec):
+    """a writer call that raises after ring bonds were opened; -> True when it did raise"""
+    from cgsmiles.write_cgsmiles import write_cgsmiles_graph
+    g = nx.cycle_graph(spec['n'])
+    g.add_edges_from(map(tuple, spec['chords']))
+    for (a, b), o in zip(list(g.edges), spec['orders']):
+        g.edges[a, b]['order'] = o
+    for n in g:
+        if n != spec['unnamed']:
+            g.nodes[n]['fragname'] = 'A'
+    try:
+        write_cgsmiles_graph(g)
+    except Exception:
+        return True
+    return False
 
 
 def run(case):
@@ -192,6 +218,9 @@ def run(case):
         finally:
             sys.setrecursionlimit(old_limit)
         return {'violations': viol, 'nontrivial': True, 'sample': case['gid'], 'cls': (case['gid'],)}
+    counters = {}
+    if case.get('failed_write_before'):
+        counters['failed_writes_before_a_round_trip'] = int(failed_write(case['failed_write_before']))
     try:
         s = write_cgsmiles_graph(g)
         g2 = cgsmiles.read_cgsmiles(s)
@@ -210,5 +239,5 @@ def run(case):
         viol.append(V('c07.exception.' + type(err).__name__, f'graph nodes {case["nodes"]} edges {case["edges"]} (written: {s!r}) raised {type(err).__name__}: {err}'))
     nonsingle = any(o != 1 for _, _, o in case['edges'])
     orders = tuple(sorted({o for _, _, o in case['edges']}))
-    return {'violations': viol, 'nontrivial': nonsingle, 'sample': s or case,
+    return {'violations': viol, 'nontrivial': nonsingle, 'sample': s or case, 'counters': counters,
             'cls': (case['gid'], case['assign'], tuple(case['features']), orders if case['assign'] != 'random' else len(case['edges']))}
